@@ -458,6 +458,36 @@ func (b *bounds) lenTerms(x ast.Expr) []string {
 					out = append(out, b.lenAlternatives(call.Args[1])...)
 				}
 			}
+			out = append(out, b.helperLenTerms(call, 0)...)
+		}
+	} else if call, ok := ast.Unparen(x).(*ast.CallExpr); ok {
+		out = append(out, b.helperLenTerms(call, 0)...)
+	}
+	return out
+}
+
+// helperLenTerms: the call is of a moq function that returns one element per element of one of its
+// arguments (a slice it made with that argument's Len() and never re-slices): the length of the result is
+// the Len() of that argument, and for an argument types.NewTuple(xs...) the length of xs.
+func (b *bounds) helperLenTerms(call *ast.CallExpr, depth int) []string {
+	fn, ok := typeutil.Callee(b.info, call).(*types.Func)
+	if !ok || depth > 2 || !b.prog.IsMoqPkg(fn.Pkg()) {
+		return nil
+	}
+	var out []string
+	sig, _ := fn.Type().(*types.Signature)
+	for i, a := range call.Args {
+		if sig == nil || (sig.Variadic() && i >= sig.Params().Len()-1) || call.Ellipsis.IsValid() {
+			break
+		}
+		if !resultLenIsParamLen(b.prog, fn, i) {
+			continue
+		}
+		out = append(out, b.norm(a)+".Len()")
+		if ac, ok := b.unfold(a).(*ast.CallExpr); ok && ac.Ellipsis.IsValid() && len(ac.Args) == 1 {
+			if af, ok := typeutil.Callee(b.info, ac).(*types.Func); ok && af.FullName() == "go/types.NewTuple" {
+				out = append(out, b.lenTerms(ac.Args[0])...)
+			}
 		}
 	}
 	return out
@@ -2155,7 +2185,129 @@ func (b *bounds) origins(e ast.Expr, depth int) []origin {
 			}
 		}
 	}
+	// an element of a local slice: whatever the function stores into it (xs[i] = v, xs = append(xs, v..));
+	// the zero values a make leaves behind are no origin of a usable value
+	if ix, ok := e.(*ast.IndexExpr); ok {
+		if id, ok := ast.Unparen(ix.X).(*ast.Ident); ok {
+			v, _ := b.info.ObjectOf(id).(*types.Var)
+			if v != nil && !v.IsField() && v.Parent() != nil && v.Pkg() != nil && v.Parent() != v.Pkg().Scope() && within(b.fd, identDecl(b.info, b.fd, v)) {
+				if _, isSlice := v.Type().Underlying().(*types.Slice); isSlice {
+					if out, ok := b.elementOrigins(v, depth); ok {
+						return out
+					}
+				}
+			}
+		}
+	}
 	return []origin{{e, b.info}}
+}
+
+// identDecl: the defining identifier of a local variable inside fd (nil when it is declared elsewhere).
+func identDecl(info *types.Info, fd *ast.FuncDecl, v *types.Var) ast.Node {
+	var out ast.Node
+	ast.Inspect(fd, func(n ast.Node) bool {
+		if id, ok := n.(*ast.Ident); ok && info.Defs[id] == v {
+			out = id
+		}
+		return out == nil
+	})
+	if out == nil {
+		return &ast.BadExpr{}
+	}
+	return out
+}
+
+// elementOrigins: the origins of everything stored into the elements of the local slice v; false when the
+// slice escapes the forms understood (made or nil, then filled by index or append, never re-assigned from
+// something else, never handed out by address).
+func (b *bounds) elementOrigins(v *types.Var, depth int) ([]origin, bool) {
+	var out []origin
+	ok := true
+	isV := func(e ast.Expr) bool {
+		id, isID := ast.Unparen(e).(*ast.Ident)
+		return isID && b.info.ObjectOf(id) == v
+	}
+	ast.Inspect(b.fd, func(n ast.Node) bool {
+		switch x := n.(type) {
+		case *ast.UnaryExpr:
+			if x.Op == token.AND {
+				if isV(x.X) {
+					ok = false
+				}
+				if ix, isIx := ast.Unparen(x.X).(*ast.IndexExpr); isIx && isV(ix.X) {
+					ok = false
+				}
+			}
+		case *ast.ValueSpec:
+			for i, nm := range x.Names {
+				if b.info.Defs[nm] == v && i < len(x.Values) && !b.emptySliceExpr(x.Values[i]) {
+					ok = false
+				}
+			}
+		case *ast.AssignStmt:
+			if len(x.Lhs) != len(x.Rhs) {
+				for _, l := range x.Lhs {
+					if isV(l) {
+						ok = false
+					}
+					if ix, isIx := ast.Unparen(l).(*ast.IndexExpr); isIx && isV(ix.X) {
+						ok = false
+					}
+				}
+				return true
+			}
+			for i, l := range x.Lhs {
+				if ix, isIx := ast.Unparen(l).(*ast.IndexExpr); isIx && isV(ix.X) {
+					out = append(out, b.origins(x.Rhs[i], depth+1)...)
+					continue
+				}
+				if !isV(l) {
+					continue
+				}
+				r := ast.Unparen(x.Rhs[i])
+				if b.emptySliceExpr(r) {
+					continue
+				}
+				call, isCall := r.(*ast.CallExpr)
+				if !isCall || call.Ellipsis.IsValid() || len(call.Args) < 1 || !isV(call.Args[0]) {
+					ok = false
+					continue
+				}
+				fid, isID := ast.Unparen(call.Fun).(*ast.Ident)
+				if !isID {
+					ok = false
+					continue
+				}
+				if bi, isB := b.info.Uses[fid].(*types.Builtin); !isB || bi.Name() != "append" {
+					ok = false
+					continue
+				}
+				for _, a := range call.Args[1:] {
+					out = append(out, b.origins(a, depth+1)...)
+				}
+			}
+		}
+		return true
+	})
+	return out, ok && len(out) > 0
+}
+
+// emptySliceExpr: nil, an empty composite literal, or make(T, n[, c]).
+func (b *bounds) emptySliceExpr(e ast.Expr) bool {
+	switch x := ast.Unparen(e).(type) {
+	case *ast.Ident:
+		_, isNil := b.info.Uses[x].(*types.Nil)
+		return isNil
+	case *ast.CompositeLit:
+		return len(x.Elts) == 0
+	case *ast.CallExpr:
+		if id, ok := ast.Unparen(x.Fun).(*ast.Ident); ok {
+			if bi, ok := b.info.Uses[id].(*types.Builtin); ok && bi.Name() == "make" {
+				return true
+			}
+		}
+	}
+	return false
 }
 
 var originsBusy = map[nonNegKey]bool{}
